@@ -153,6 +153,12 @@ func (s *Service) onFindNode(ctx context.Context, peer p2p.Peer, stream p2p.Stre
 	if req.Limit > 2 {
 		limitKnown = int(req.Limit / 2)
 		limitConn = int(req.Limit) - limitKnown
+	} else if req.Limit < 2 {
+		// never more peers than requested: 1 -> one connected peer, <= 0 -> none
+		limitKnown = 0
+		if req.Limit < 1 {
+			limitConn = 0
+		}
 	}
 
 	addrFunc := func(address boson.Address, u uint8) (stop, jumpToNext bool, err error) {
